@@ -361,6 +361,51 @@ func RunTaggable(policyFile string, seed int64) (*Report, error) {
 	if pan != nil || perr != nil || out != nil {
 		rep.mm(Mismatch{Props: []string{"C09"}, What: "key-rotation payload must be consumed", Vector: "rotation payload", Expected: "(nil, nil)", Observed: fmt.Sprintf("panic=%v err=%v forwarded=%v", pan, perr, out != nil)})
 	}
+	// Taggable values nested in front of ordinary class-tagged fields: whatever the walker does inside the Taggable
+	// struct / map (it passes extra options down), the fields that follow are filtered as their own tags dictate
+	for depth := 0; depth <= 3; depth++ {
+		for _, tagged := range []bool{true, false} {
+			rep.Vectors++
+			rep.Runs++
+			c := fmt.Sprintf("CANARY-nest-%d-%d-%v", seed, depth, tagged)
+			if tagged {
+				curTags = []encrypt.PointerTag{{Pointer: "/tagged", Classification: encrypt.SecretClassification, Filter: encrypt.RedactOperation}}
+			} else {
+				curTags = nil
+			}
+			m := TMap{"tagged": c + "-mt", "untagged": c + "-mu"}
+			var first interface{}
+			switch depth {
+			case 0:
+				first = m
+			case 1:
+				first = &nestPlain{M: m}
+			case 2:
+				first = &nestTagStruct{In: nestPlain{M: m}, Own: c + "-own"}
+			default:
+				first = &nestTagStruct{In: nestPlain{M: m, Deeper: &nestTagStruct{In: nestPlain{M: TMap{"tagged": c + "-mt2", "untagged": c + "-mu2"}}, Own: c + "-own2"}}, Own: c + "-own"}
+			}
+			in := &nestPayload{First: first, S: c + "-S", T: c + "-T", B: []byte(c + "-B"), Last: TMap{"tagged": c + "-lt", "untagged": c + "-lu"}}
+			vec := fmt.Sprintf("struct{First: Taggable nesting depth %d (pointer tag: %v); S secret; T sensitive; B secret bytes; Last Taggable map}", depth, tagged)
+			out, perr, pan := process(&encrypt.Filter{Wrapper: w}, &eventlogger.Event{Type: "t", Payload: in, Formatted: map[string][]byte{}})
+			if pan != nil || perr != nil || out == nil {
+				rep.mm(Mismatch{Props: []string{"C09"}, What: "Process on nested Taggable values", Vector: vec, Expected: "forwarded", Observed: fmt.Sprintf("panic=%v err=%v", pan, perr)})
+				continue
+			}
+			op, ok := out.Payload.(*nestPayload)
+			if !ok {
+				rep.mm(Mismatch{Props: []string{"C10"}, What: "dynamic type of the forwarded payload", Vector: vec, Expected: "*nestPayload", Observed: reflect.TypeOf(out.Payload).String()})
+				continue
+			}
+			dump := fmt.Sprintf("%+v", derefAll(op))
+			if strings.Contains(dump, c) {
+				rep.mm(Mismatch{Props: []string{"C09"}, What: "plaintext readable after the filter in a payload whose first field nests Taggable values", Vector: vec, Expected: "no canary readable", Observed: dump})
+			}
+			if Form(w, op.S, []byte(c+"-S")) != "redacted" || Form(w, op.T, []byte(c+"-T")) != "encrypted" || Form(w, string(op.B), []byte(c+"-B")) != "redacted" {
+				rep.mm(Mismatch{Props: []string{"C09"}, What: "class-tagged fields that follow a nested Taggable value", Vector: vec, Expected: "S redacted, T encrypted, B redacted", Observed: fmt.Sprintf("S=%s T=%s B=%s", Form(w, op.S, []byte(c+"-S")), Form(w, op.T, []byte(c+"-T")), Form(w, string(op.B), []byte(c+"-B")))})
+			}
+		}
+	}
 	// with every operation overridden to none the filter is a pass-through for whatever it is given, a rotation
 	// payload included: the very same event comes back and the filter keeps its key material
 	rep.Vectors++
@@ -377,4 +422,48 @@ func RunTaggable(policyFile string, seed int64) (*Report, error) {
 	curTags = nil
 	reportAliasing(rep)
 	return rep, nil
+}
+
+type nestPlain struct {
+	M      TMap
+	Deeper *nestTagStruct
+}
+
+// nestTagStruct is a Taggable struct without pointer tags of its own.
+type nestTagStruct struct {
+	In  nestPlain
+	Own string `class:"secret"`
+}
+
+func (t *nestTagStruct) Tags() ([]encrypt.PointerTag, error) { return nil, nil }
+
+type nestPayload struct {
+	First interface{}
+	S     string `class:"secret"`
+	T     string `class:"sensitive"`
+	B     []byte `class:"secret"`
+	Last  TMap
+}
+
+// derefAll renders a payload with its pointers followed, for plaintext searches.
+func derefAll(p *nestPayload) interface{} {
+	var walk func(v interface{}) interface{}
+	walk = func(v interface{}) interface{} {
+		switch x := v.(type) {
+		case *nestPlain:
+			if x == nil {
+				return nil
+			}
+			return map[string]interface{}{"M": x.M, "Deeper": walk(x.Deeper)}
+		case nestPlain:
+			return map[string]interface{}{"M": x.M, "Deeper": walk(x.Deeper)}
+		case *nestTagStruct:
+			if x == nil {
+				return nil
+			}
+			return map[string]interface{}{"In": walk(x.In), "Own": x.Own}
+		}
+		return v
+	}
+	return map[string]interface{}{"First": walk(p.First), "S": p.S, "T": p.T, "B": string(p.B), "Last": p.Last}
 }
